@@ -56,3 +56,25 @@ PROPS["C14"] = {
         Leg("random", "c14", "^TestRandom$", checks=(200000, 2000000), shards=(2, 16), tests=["random"]),
     ],
 }
+
+PROPS["C07"] = {
+    "title": "No input can crash or hang framing, decoding or display",
+    "level": "exploration",
+    "technique": "enumerated type x length sweep + property-based testing (rapid) + native coverage-guided fuzzing; oracle: no panic, returns under a watchdog, error text or non-RTCM for malformed typed frames",
+    "level_text": ("Generated-input exploration with a crash/hang/validity oracle: all 16 decodable types x all payload lengths 1..1023 x 7 fill "
+                   "classes are swept completely as CRC-valid frames, then random frames (cut-short and bit-flipped real MSM encodings, corruptions, "
+                   "truncations) and adversarial streams are decoded and displayed at both log levels under recover + watchdog; thorough adds native "
+                   "fuzzing. The input space is unbounded, so this is search, not proof."),
+    "rule": ("sweep: type x length x fill class enumerated; frame: random single buffers (MSM encodings cut at any byte or with 1-6 payload bit flips and a "
+             "re-computed CRC, typed random payloads, corrupted/truncated frames, arbitrary bytes); stream: adversarial segment grammar through "
+             "HandleMessages with drawn channel capacities, every delivered message analysed and displayed. Non-trivial = a CRC-valid frame of a "
+             "decodable type (1005, 1006, 14 MSM types) reached the decoder (frame legs) / the stream contains at least one such frame; distinct = "
+             "distinct frame bytes / distinct stream case."),
+    "assumptions": ["a 20 s watchdog per case separates 'hangs' from slow (normal cases take < 5 ms)", "independent CRC-24Q used to build frames is correct (self-tested against captured frames in C01)", "Go toolchain, rapid v1.3.0"],
+    "min_evals": {"quick": 50000, "thorough": 500000},
+    "legs": [
+        Leg("sweep", "c07", "^TestSweep$", engine="enumerate", rapid=False, shards=(8, 16), tests=["sweep"]),
+        Leg("frame", "c07", "^TestFrame$", checks=(20000, 60000), shards=(2, 16), tests=["frame"]),
+        Leg("stream", "c07", "^TestStream$", checks=(3000, 20000), shards=(2, 16), tests=["stream"]),
+    ],
+}
